@@ -78,7 +78,8 @@ def scfgP : P SCfg := do
   let cw ← bool
   let tbl ← list (do let k ← str; let v ← opt nat; pure (k, v))
   let feats ← list sfeatP
-  pure { builderConc, cliConc, builderFF := bff, cliFF := cff, builderRetries := bret, cliRetries := cret,
+  let bgTable ← list (do let s ← nat; let n ← nat; pure (s, n))
+  pure { bgTable, builderConc, cliConc, builderFF := bff, cliFF := cff, builderRetries := bret, cliRetries := cret,
          builderAfter := baft, cliAfter := caft, customWhich := cw, durTable := tbl, feats }
 
 def showDis (s : SState) (cls : DClass) : String :=
@@ -96,6 +97,7 @@ def handleSchedRun : Toks → Option String :=
       showDis s .Q, showDis s .K, showDis s .R, showDis s .B, showDis s .FF, showDis s .I, showDis s .A,
       showMon "c03" none_ (framed c ls), showMon "c04" none_ (completeness c ls),
       showMon "c05" none_ (retries c ls), showMon "c06" none_ (limit c ls),
-      showMon "c07" (knownC07 c ls iso) (iso.map (·.1)), showMon "c08" none_ (SMon.failFast c ls)])) ts
+      showMon "c07" (knownC07 c ls iso) (iso.map (·.1)), showMon "c08" none_ (SMon.failFast c ls),
+      showMon "c02" none_ (attemptShapes c ls)])) ts
 
 end Cuke.Driver
